@@ -536,6 +536,9 @@ class Rig:
             res = fut.result()
             self.check_result_object(res, txid, detail)
             want = [p['state'] for p in wire_result.get(txid, {}).get('views', {}).get(self.netlocs[rec['ci']], [])]
+            first_final = next((i for i, st in enumerate(want) if st in im.FINAL), None)
+            if first_final is not None:
+                want = want[:first_final + 1]  # whatever a provider sends after the final state cannot be demanded
             got = [p.InvocationInfo.InvocationState.value for p in res.report_parts]
             if resp.get('state') in im.IMMEDIATE_FINAL_RESPONSE:
                 ctx.count('obs.immediate_final_response.parts_' + ('empty' if not got else 'present'))
@@ -597,6 +600,23 @@ def w_live_sequential(ctx: core.Ctx, arg):
     rig = Rig(ctx, arg['mdib_file'], n_consumers=arg.get('n_consumers', 2), sync_dispatch=arg.get('sync', True))
     try:
         n = itertools.count()
+        # unknown operation handles, every request kind; MDIB must stay as it is.  Done first: once a tutorial operation with an
+        # InvocationEffectiveTimeout was called, the idle worker runs its timeout handler, which legitimately writes to the MDIB
+        rig.quiesce()
+        before = snap(rig.mdib)
+        for kind, base in sorted(rig.harness_ops.items()):
+            if kind[1] != 'ok' or kind[2] != 'queued':
+                continue
+            spec = dict(base, op=f'vf.no.such.operation.{kind[0]}', outcome='unknown', origin='unknown')
+            rig.issue(0, spec, next(n))
+            ctx.case(('live.unknown_op', arg['mdib_file'], kind[0]))
+        rig.quiesce()
+        diff = snap_equal(before, snap(rig.mdib))
+        ctx.count('unknown_op.snapshots_compared')
+        if diff:
+            ctx.witness('unknown_op.mdib_changed', 'requests for unknown operation handles changed the MDIB', {'diff': diff[:5]})
+        result, reports, _ = rig.evaluate_wire(where='live.unknown')
+        rig.evaluate_futures(result, reports, where='live')
         for mode in ('queued', 'direct'):
             rig.set_tutorial_mode(mode)
             specs = [s for s in _all_specs(rig) if s['mode'] == mode] + list(rig.tutorial_ops)
@@ -613,22 +633,6 @@ def w_live_sequential(ctx: core.Ctx, arg):
                 rig.quiesce()
                 result, reports, _ = rig.evaluate_wire(where='live.seq')
                 rig.evaluate_futures(result, reports, where='live')
-        # unknown operation handles, every request kind; MDIB must stay as it is
-        rig.quiesce()
-        before = snap(rig.mdib)
-        for kind, base in sorted(rig.harness_ops.items()):
-            if kind[1] != 'ok' or kind[2] != 'queued':
-                continue
-            spec = dict(base, op=f'vf.no.such.operation.{kind[0]}', outcome='unknown', origin='unknown')
-            rig.issue(0, spec, next(n))
-            ctx.case(('live.unknown_op', arg['mdib_file'], kind[0]))
-        rig.quiesce()
-        diff = snap_equal(before, snap(rig.mdib))
-        ctx.count('unknown_op.snapshots_compared')
-        if diff:
-            ctx.witness('unknown_op.mdib_changed', 'requests for unknown operation handles changed the MDIB', {'diff': diff[:5]})
-        result, reports, _ = rig.evaluate_wire(where='live.unknown')
-        rig.evaluate_futures(result, reports, where='live')
         if arg.get('sample'):
             ctx.sample({'kind': 'live sequential', 'mdib_file': arg['mdib_file'],
                         'operations': [s['op'] for s in rig.tutorial_ops] + [f'{len(rig.harness_ops)} harness operations'],
